@@ -408,9 +408,17 @@ Definition run_with (f : fs) (fl : flags) (c0 : config) : result :=
       end
   end.
 
-(* bin:91-98 generate -c <file>: a missing, unreadable, malformed or invalid file is an error *)
+(* config.rs from_file_unvalidated: read and deserialise only *)
+Definition from_file_unvalidated (f : fs) (p : string) : option config :=
+  match fs_get f p with
+  | Some (NDoc (Some d)) => from_flat d
+  | _ => None
+  end.
+
+(* bin:91-98 generate -c <file>: a missing, unreadable or malformed file is an error; the
+   file's settings are validated after the overrides, with the effective configuration *)
 Definition run_generate_c (f : fs) (fl : flags) (p : string) : result :=
-  match from_file f p with
+  match from_file_unvalidated f p with
   | Some c0 => run_with f fl c0
   | None => RFail f
   end.
